@@ -1492,6 +1492,12 @@ def gen_c19(rng, tier):
         src = pre + '/* <tl to="2000-01-01 00:00:00"> */gone/* </tl> */' + post + '\n/* <tl to="2100-01-01 00:00:00"> */keep/* </tl> */\nend\n'
         cases.append(G.dcase(f"kf4_{j}", "/* <", "> */", src, G.Cfg("tl", "rm", "+00:00", 4449513600, ())))
         meta[f"kf4_{j}"] = {"stream": "history", "chain": [(1293840000, []), (4449513600, [])], "ds": "/* <", "de": "> */", "known_class": KF4}
+    # ... and its severe form: the created delimiter starts a bogus tag that reads as an expired element, so a
+    # second run with the SAME configuration deletes a pending element (idempotence)
+    src = ('x /*/* <tl to="2000-01-01 00:00:00"> */gone/* </tl> */ <tl to="2000-01-01 00:00:00" x\n'
+           '/* <tl to="2100-01-01 00:00:00"> */keep/* </tl> */\nend\n')
+    cases.append(G.dcase("kf4i", "/* <", "> */", src, G.Cfg("tl", "rm", "+00:00", 1293840000, ())))
+    meta["kf4i"] = {"stream": "idempotence", "known_idem": KF4}
     for i in range(150 if tier == "quick" else 2000):
         ds, de = rng.choice(G.DELIMS)
         cfg = G.Cfg("tl", "rm", "+00:00", G.NOW, ("x",))
@@ -1938,6 +1944,8 @@ def oracle_c19(line, m, impl, model):
     if m.get("stream") in ("history", "corpus", "ast", "idempotence") and not m.get("mutated"):
         # sources in which delimiter strings occur only as parts of tags
         if "again" in impl and impl["again"] != impl["clean"]:
+            if m.get("known_idem"):
+                return ("known", m["known_idem"])
             out1 = unhex(impl["clean"])
             return f"cleaning the output again changed it: {out1[:80]!r} -> {unhex(impl['again'])[:80]!r}" if impl["again"] != "PANIC" else "second clean panicked"
     if m.get("stream") == "history":
